@@ -630,8 +630,14 @@ func (po *PinOptions) Equals(po2 *PinOptions) bool {
 	}
 
 	for k, v := range po.Metadata {
-		v2 := po2.Metadata[k]
-		if k != "" && v != v2 {
+		v2, ok := po2.Metadata[k]
+		if k != "" && (!ok || v != v2) {
+			return false
+		}
+	}
+
+	for k := range po2.Metadata {
+		if _, ok := po.Metadata[k]; k != "" && !ok {
 			return false
 		}
 	}
